@@ -217,7 +217,7 @@ theorem emitItem_good (q : Quirks) (hh : q.atRuleHoists = false) (hm : q.mediaIn
     · cases h
     · next st2 h2 =>
       rw [startMedia_eq] at h2
-      have ih := emitBody_good q hh hm ops c body _ st2 h2
+      have ih := emitBody_good q hh hm ops _ body _ st2 h2
       have hb := block_good q hh hm ops st st2 st' _ _ (atFrame_view _ _ _) ih (liftInv_ok' _ _ h)
       simp only [atFrame_skel] at hb
       simpa only [logItem] using hb
